@@ -358,11 +358,21 @@ func c14One(c *vf.Ctx, sub string, i int, r *rand.Rand, ids []Ident) {
 	}
 	// announce-triggered syncs finish asynchronously: logical quiescence
 	quiesce := func() {
-		deadline := time.Now().Add(60 * time.Second)
-		for time.Now().Before(deadline) {
-			if tl.count("watch.recv") == tl.count("watch.swap.spawn")+tl.count("watch.swap.replaced") &&
-				tl.count("async.enter") == tl.count("async.exit") && tl.count("watch.swap.spawn") == tl.count("async.enter") && tl.count("event.emit.begin") == tl.count("event.emit.end") {
-				break
+		// (conditions are evaluated on one snapshot of the counters, and must hold twice a moment apart with nothing
+		// logged in between; the deadline runs from the last progress seen)
+		lastTotal, lastProgress := -1, time.Now()
+		for time.Since(lastProgress) < 60*time.Second {
+			n, total := tl.snapshot()
+			if total != lastTotal {
+				lastTotal, lastProgress = total, time.Now()
+			}
+			if n["watch.recv"] == n["watch.swap.spawn"]+n["watch.swap.replaced"] &&
+				n["async.enter"] == n["async.exit"] && n["watch.swap.spawn"] == n["async.enter"] && n["event.emit.begin"] == n["event.emit.end"] {
+				time.Sleep(time.Millisecond)
+				if _, total2 := tl.snapshot(); total2 == total {
+					break
+				}
+				continue
 			}
 			time.Sleep(500 * time.Microsecond)
 		}
